@@ -13,9 +13,9 @@
      same_coll ds ds'           the same collector: the same set of descriptors up to same_id (the API
                                 consumes a fresh Box<dyn Collector> per call: there is no other identity)
      reg_abs st r               the tables r represent the abstract registry st
-     ids_exact_on P, dims_exact_on P, sums_exact_on CP
+     ids_exact_on P, dims_exact_on P, cids_exact_on CP
                                 "no collision" on the pool of descriptors P / collectors CP in play:
-                                d_id (resp. d_dim under one name, resp. the wrapping sum of ids) is equal
+                                d_id (resp. d_dim under one name, resp. the collector id = FNV-1a over the sorted ids) is equal
                                 exactly when the identities (resp. signatures, resp. id sets) are.  They
                                 follow from injectivity of FNV-1a on the serialised identities
                                 (c06_ids_exact_from_fnv, c06_dims_exact_from_fnv) - "up to collisions of the
@@ -48,7 +48,7 @@ Proof. unfold can_register, descs_fine, equal_registered, agrees, coll_registere
 
 (* register returns Ok exactly for the collectors that can be registered *)
 Theorem c06_register_iff {C} (P : Desc -> Prop) (CP : list Desc -> Prop) (st : sstate C) (r : regcore C) ds c :
-  (forall ds d, CP ds -> In d ds -> P d) -> ids_exact_on P -> dims_exact_on P -> sums_exact_on CP ->
+  (forall ds d, CP ds -> In d ds -> P d) -> ids_exact_on P -> dims_exact_on P -> cids_exact_on CP ->
   reg_abs st r -> st_in P CP st -> CP ds ->
   ((exists r', reg_register r ds c = Ok r') <-> can_register st (r_labels r) ds).
 Proof. intros H1 H2 H3 H4. exact (register_iff P CP H1 H2 H3 H4 st r ds c). Qed.
@@ -58,14 +58,14 @@ Proof. intros H1 H2 H3 H4. exact (register_iff P CP H1 H2 H3 H4 st r ds c). Qed.
    collector itself is registered; Msg exactly when that first descriptor is not equal to a
    registered one; there is no third kind *)
 Theorem c06_register_AlreadyReg_iff {C} (P : Desc -> Prop) (CP : list Desc -> Prop) (st : sstate C) (r : regcore C) ds c :
-  (forall ds d, CP ds -> In d ds -> P d) -> ids_exact_on P -> dims_exact_on P -> sums_exact_on CP ->
+  (forall ds d, CP ds -> In d ds -> P d) -> ids_exact_on P -> dims_exact_on P -> cids_exact_on CP ->
   reg_abs st r -> st_in P CP st -> CP ds ->
   (reg_register r ds c = Err EAlreadyReg <->
    (exists a d b, ds = a ++ d :: b /\ descs_fine st (r_labels r) a /\ equal_registered st d)
    \/ (descs_fine st (r_labels r) ds /\ coll_registered st ds)).
 Proof. intros H1 H2 H3 H4. exact (register_AlreadyReg_iff P CP H1 H2 H3 H4 st r ds c). Qed.
 Theorem c06_register_Msg_iff {C} (P : Desc -> Prop) (CP : list Desc -> Prop) (st : sstate C) (r : regcore C) ds c :
-  (forall ds d, CP ds -> In d ds -> P d) -> ids_exact_on P -> dims_exact_on P -> sums_exact_on CP ->
+  (forall ds d, CP ds -> In d ds -> P d) -> ids_exact_on P -> dims_exact_on P -> cids_exact_on CP ->
   reg_abs st r -> st_in P CP st -> CP ds ->
   (reg_register r ds c = Err EMsg <->
    exists a d b, ds = a ++ d :: b /\ descs_fine st (r_labels r) a /\ ~ equal_registered st d /\ objection st (r_labels r) a d).
@@ -100,7 +100,7 @@ Proof. exact (reg_step_err r o e). Qed.
 
 (* ---- unregister ------------------------------------------------------------------------------ *)
 Theorem c06_unregister_iff {C} (P : Desc -> Prop) (CP : list Desc -> Prop) (st : sstate C) (r : regcore C) ds :
-  (forall ds d, CP ds -> In d ds -> P d) -> ids_exact_on P -> sums_exact_on CP ->
+  (forall ds d, CP ds -> In d ds -> P d) -> ids_exact_on P -> cids_exact_on CP ->
   reg_abs st r -> st_in P CP st -> CP ds ->
   ((exists r', reg_unregister r ds = Ok r') <-> coll_registered st ds).
 Proof. intros H1 H2 H3. exact (unregister_iff_abs P CP H1 H2 H3 st r ds). Qed.
@@ -112,7 +112,7 @@ Proof. exact (unregister_err r ds e). Qed.
 (* afterwards the collector is not registered, every other collector still is, and the record of
    what was ever registered (the per-name signatures) is kept *)
 Theorem c06_unregister_effect {C} (P : Desc -> Prop) (CP : list Desc -> Prop) (st : sstate C) (r : regcore C) ds r' :
-  (forall ds d, CP ds -> In d ds -> P d) -> ids_exact_on P -> sums_exact_on CP ->
+  (forall ds d, CP ds -> In d ds -> P d) -> ids_exact_on P -> cids_exact_on CP ->
   reg_abs st r -> st_in P CP st -> CP ds -> reg_unregister r ds = Ok r' ->
   exists st', reg_abs st' r' /\ ~ coll_registered st' ds /\ s_hist st' = s_hist st
               /\ forall e, In e (s_cur st') <-> In e (s_cur st) /\ ~ same_coll ds (fst e).
@@ -139,7 +139,7 @@ Proof. exact (gather_after_unregister r r' ds w fs w' f). Qed.
    every point of the history: the results are those of the abstract registry and the tables
    represent it.  The pool is the history's own descriptors and collectors. *)
 Theorem c06_history_refines_spec {C} (ops : list (regop C)) r0 :
-  fresh_registry r0 -> ids_exact_on (hist_P ops) -> dims_exact_on (hist_P ops) -> sums_exact_on (hist_CP ops) ->
+  fresh_registry r0 -> ids_exact_on (hist_P ops) -> dims_exact_on (hist_P ops) -> cids_exact_on (hist_CP ops) ->
   forall pre post, ops = pre ++ post ->
     reg_trace r0 pre = spec_trace (r_labels r0) s_empty pre
     /\ reg_abs (spec_final (r_labels r0) s_empty pre) (reg_final r0 pre).
@@ -168,7 +168,7 @@ Proof. exact (built_dims_exact P). Qed.
 (* they are decidable on the descriptors of a concrete history *)
 Theorem c06_hypotheses_decidable {C} (ops : list (regop C)) :
   history_collision_free_b ops = true ->
-  ids_exact_on (hist_P ops) /\ dims_exact_on (hist_P ops) /\ sums_exact_on (hist_CP ops).
+  ids_exact_on (hist_P ops) /\ dims_exact_on (hist_P ops) /\ cids_exact_on (hist_CP ops).
 Proof. exact (history_collision_free ops). Qed.
 
 (* without them the iff is false: indbfqeysbnpsf / ivltldgmoctybd are two valid metric names with
@@ -191,7 +191,7 @@ Proof. exact register_iff_refuted_by_collision. Qed.
    collectors registered with another help (the repaired defect); unregister; unregister again;
    register again *)
 Example c06_hypotheses_satisfiable :
-  (ids_exact_on (hist_P ex_history) /\ dims_exact_on (hist_P ex_history) /\ sums_exact_on (hist_CP ex_history))
+  (ids_exact_on (hist_P ex_history) /\ dims_exact_on (hist_P ex_history) /\ cids_exact_on (hist_CP ex_history))
   /\ reg_trace reg_empty ex_history = [Ok tt; Err EAlreadyReg; Err EMsg; Err EAlreadyReg; Ok tt; Ok tt; Err EMsg; Ok tt]
   /\ spec_trace None s_empty ex_history = reg_trace reg_empty ex_history.
 Proof.
@@ -223,7 +223,7 @@ Proof. exact defect_scenario_model. Qed.
                         OpClone, OpDrop, local metrics, timers), the constant labels of every Opts value have
                         distinct keys (they are a HashMap), and no step of the model's run hangs
                         (a histogram collect that would spin: the spec demands an answer from gather);
-     no_collision ops = ids_exact_on / dims_exact_on / sums_exact_on, decided by computation on the
+     no_collision ops = ids_exact_on / dims_exact_on / cids_exact_on, decided by computation on the
                         descriptors that the constructor operations of ops build (c06_no_collision_sound).
    Every clause of the spec is covered: result kinds of register / unregister over arbitrary
    collectors and registries (prefix, common labels, clashes), no trace of refused calls, and the
@@ -238,8 +238,8 @@ Proof. reflexivity. Qed.
 Theorem c06_no_collision_sound ops :
   no_collision ops = true ->
   ids_exact_on (fun d => In d (concat (pool_colls ops))) /\ dims_exact_on (fun d => In d (concat (pool_colls ops)))
-  /\ sums_exact_on (fun ds => In ds (pool_colls ops)).
-Proof. intros H. split; [exact (Hids ops H)|split; [exact (Hdims ops H)|exact (Hsums ops H)]]. Qed.
+  /\ cids_exact_on (fun ds => In ds (pool_colls ops)).
+Proof. intros H. split; [exact (Hids ops H)|split; [exact (Hdims ops H)|exact (Hcids ops H)]]. Qed.
 Theorem c06_gather_samples p l collected :
   Permutation (SpecC07.expected_samples p l collected)
               (SpecC07.flatten (gather_families p (match l with Some l0 => Some (amap_of l0) | None => None end) collected)).
@@ -251,8 +251,10 @@ Example c06_corpus_in_domain :
   /\ SpecC06.spec_c06 corpus_defect_msg (run world0 corpus_defect_msg) = true
   /\ SpecC06.spec_c06 corpus_defect_dup (run world0 corpus_defect_dup) = true.
 Proof.
-  pose proof corpus_in_domain as H. rewrite !andb_true_iff in H. destruct H as [[[A1 A2] [B1 B2]] [C1 C2]].
-  split; [|split]; apply spec_c06_model; assumption.
+  pose proof corpus_in_domain as H.
+  destruct (andb_prop _ _ H) as [H1 HC]. destruct (andb_prop _ _ H1) as [HA HB].
+  destruct (andb_prop _ _ HA) as [A1 A2]. destruct (andb_prop _ _ HB) as [B1 B2]. destruct (andb_prop _ _ HC) as [C1 C2].
+  split; [exact (spec_c06_model _ A1 A2)|split; [exact (spec_c06_model _ B1 B2)|exact (spec_c06_model _ C1 C2)]].
 Qed.
 (* ... the collision witness is inside the domain but not collision free: there the spec fails on
    the model's own run, and the failure is in the known class *)
@@ -262,8 +264,32 @@ Example c06_collision_witness_outside :
   /\ SpecC06.known_c06 corpus_collision (run world0 corpus_collision) = true.
 Proof. exact corpus_collision_outside. Qed.
 
+(* ---- the defect repaired by edcf206 ----------------------------------------------------------- *)
+(* Before the repair a collector was filed under the wrapping SUM of its descriptor ids
+   (collector_id_sum).  C1 = [g{k="1"}; y] and C2 = [g{k="2"}; x] - four different descriptors -
+   have the same sum, and so have A = [x{k="3"}; y] and B = [x{k="2"}; x]: registering C2 after C1
+   answered AlreadyReg, unregistering B removed A.  This was hypothesis cids_exact_on (then about
+   sums) failing on a natural pool.  With the repaired id (FNV-1a over the sorted ids) they differ ... *)
+Example c06_sum_ids_collided :
+  collector_id_sum ex_C1 = collector_id_sum ex_C2 /\ collector_id ex_C1 <> collector_id ex_C2
+  /\ collector_id_sum ex_A = collector_id_sum ex_B /\ collector_id ex_A <> collector_id ex_B.
+Proof. exact sum_ids_collided. Qed.
+(* ... the pools satisfy the hypotheses, and the histories run as the text demands: C1 and C2 are
+   both accepted and can be unregistered and registered again; B (which disagrees with itself) is
+   refused with Msg, unregistering it fails, and A is still there to be unregistered *)
+Example c06_sum_witness_histories :
+  (ids_exact_on (hist_P ex_history2) /\ dims_exact_on (hist_P ex_history2) /\ cids_exact_on (hist_CP ex_history2))
+  /\ (ids_exact_on (hist_P ex_history3) /\ dims_exact_on (hist_P ex_history3) /\ cids_exact_on (hist_CP ex_history3))
+  /\ reg_trace reg_empty ex_history2 = [Ok tt; Ok tt; Ok tt; Ok tt; Ok tt]
+  /\ reg_trace reg_empty ex_history3 = [Ok tt; Err EMsg; Err EMsg; Ok tt].
+Proof.
+  pose proof ex_history23_collision_free as H. apply andb_true_iff in H as [H2 H3].
+  split; [exact (history_collision_free ex_history2 H2)|]. split; [exact (history_collision_free ex_history3 H3)|].
+  exact ex_history23_trace.
+Qed.
+
 Check @c06_register_iff : forall (C : Type) (P : Desc -> Prop) (CP : list Desc -> Prop) (st : sstate C) (r : regcore C) ds c,
-  (forall ds d, CP ds -> In d ds -> P d) -> ids_exact_on P -> dims_exact_on P -> sums_exact_on CP ->
+  (forall ds d, CP ds -> In d ds -> P d) -> ids_exact_on P -> dims_exact_on P -> cids_exact_on CP ->
   reg_abs st r -> st_in P CP st -> CP ds ->
   ((exists r', reg_register r ds c = Ok r') <-> can_register st (r_labels r) ds).
 Check c06_failed_is_noop : forall w r s w' e, step w (OpRegister r s) = (w', ORes (Err e)) -> w' = w.
@@ -272,7 +298,7 @@ Check c06_failed_is_invisible : forall w pre r s post e,
   run w (pre ++ OpRegister r s :: post) = run w pre ++ ORes (Err e) :: run (run_world w pre) post
   /\ run w (pre ++ post) = run w pre ++ run (run_world w pre) post.
 Check @c06_unregister_iff : forall (C : Type) (P : Desc -> Prop) (CP : list Desc -> Prop) (st : sstate C) (r : regcore C) ds,
-  (forall ds d, CP ds -> In d ds -> P d) -> ids_exact_on P -> sums_exact_on CP ->
+  (forall ds d, CP ds -> In d ds -> P d) -> ids_exact_on P -> cids_exact_on CP ->
   reg_abs st r -> st_in P CP st -> CP ds ->
   ((exists r', reg_unregister r ds = Ok r') <-> coll_registered st ds).
 Check @c06_unregister_then_register : forall (C : Type) (st : sstate C) (r : regcore C) ds c0 c,
@@ -280,7 +306,7 @@ Check @c06_unregister_then_register : forall (C : Type) (st : sstate C) (r : reg
   exists r1 r2, reg_unregister r ds = Ok r1 /\ reg_register r1 ds c = Ok r2
                 /\ reg_abs (s_add (s_del st (collector_id ds)) ds c) r2.
 Check @c06_history_refines_spec : forall (C : Type) (ops : list (regop C)) r0,
-  fresh_registry r0 -> ids_exact_on (hist_P ops) -> dims_exact_on (hist_P ops) -> sums_exact_on (hist_CP ops) ->
+  fresh_registry r0 -> ids_exact_on (hist_P ops) -> dims_exact_on (hist_P ops) -> cids_exact_on (hist_CP ops) ->
   forall pre post, ops = pre ++ post ->
     reg_trace r0 pre = spec_trace (r_labels r0) s_empty pre
     /\ reg_abs (spec_final (r_labels r0) s_empty pre) (reg_final r0 pre).
@@ -315,3 +341,5 @@ Print Assumptions c06_no_collision_sound.
 Print Assumptions c06_gather_samples.
 Print Assumptions c06_corpus_in_domain.
 Print Assumptions c06_collision_witness_outside.
+Print Assumptions c06_sum_ids_collided.
+Print Assumptions c06_sum_witness_histories.
